@@ -690,7 +690,7 @@ def work(item):
                                                           (60 if slow else 3000) if quick else (600 if slow else 12000))
         else:
             pair = SCHEDULE_PAIRS[0]
-            execs, outcomes, capped, touch = explore_pair(res, pair, 2, False, 'sched', 12000, nthreads=3)
+            execs, outcomes, capped, touch = explore_pair(res, pair, 2, False, 'sched', 1200, nthreads=3)     # oui.dat is loaded in every execution (0.3 s)
         n += execs
         nt += touch
         res['extra']['schedule_outcome_classes'] = {'%s|%s' % (pair[0][1] + pair[0][2][0][:6], pair[1][1] + pair[1][2][0][:6]): len(outcomes)}
